@@ -226,9 +226,9 @@ def shard(part, n, seed, known):
 
 def run(ctx):
     jobs = [("column", k, core.subseed(ctx.seed, "z", i), ctx.known_sigs)
-            for i, k in enumerate(core.split(ctx.n(1600, 50000), 8))]
+            for i, k in enumerate(core.split(ctx.n(6000, 60000), 8))]
     jobs += [("stock", k, core.subseed(ctx.seed, "s", i), ctx.known_sigs)
-             for i, k in enumerate(core.split(ctx.n(1600, 40000), 8))]
+             for i, k in enumerate(core.split(ctx.n(6000, 60000), 8))]
     stats = core.Stats()
     for s in core.pmap(shard, jobs):
         stats.merge(s)
